@@ -17,42 +17,75 @@ theorem cws_eof {s : Scan} (h : At s []) (fuel : Nat) :
     simp [hw, Scan.read, hst, Scan.readByte, hi]
   · exact ⟨s, by simp [hw], ⟨he, hst, hi⟩, hst⟩
 
-/-- a line ending at the very end of the input -/
-theorem cws_nl_end {s : Scan} {nl : List UInt8} (hn : Nl nl) (h : At s nl) (fuel : Nat) :
-    ∃ s', Scan.consumeWhiteSpaces (fuel + 3) s = .ok s' ∧ At s' [] ∧ s'.stash = [] := by
-  cases hn with
-  | lf =>
-    have h' := h.advance
-    refine ⟨s.advance, ?_, h', h'.2.1⟩
-    rw [Scan.consumeWhiteSpaces]
-    simp [Scan.isWhiteSpace, Scan.isSpace, Scan.isNewline, h.cur, h.read_last]
-  | crlf =>
-    have h' := h.advance.advance
-    refine ⟨s.advance.advance, ?_, h', h'.2.1⟩
-    rw [Scan.consumeWhiteSpaces]
-    simp only [Scan.isWhiteSpace, Scan.isSpace, Scan.isNewline, h.cur, h.read]
-    rw [Scan.consumeWhiteSpaces]
-    simp [Scan.isWhiteSpace, Scan.isSpace, Scan.isNewline, h.advance.cur, h.advance.read_last]
+theorem isWhiteSpace_of {s : Scan} {b : UInt8} (hc : s.cur = b) (hb : b = 32 ∨ b = 9 ∨ b = 13 ∨ b = 10) :
+    s.isWhiteSpace = true := by
+  unfold Scan.isWhiteSpace Scan.isSpace Scan.isNewline
+  rw [hc]
+  rcases hb with rfl | rfl | rfl | rfl <;> rfl
 
-/-- a line ending followed by text that does not start with white space -/
-theorem cws_nl_then {s : Scan} {nl text : List UInt8} (hn : Nl nl) (h : At s (nl ++ text)) (hfo : FirstW text)
-    (fuel : Nat) : Scan.consumeWhiteSpaces (fuel + 3) s = .ok (advN nl.length s) := by
-  obtain ⟨b, r, rfl, hb⟩ := hfo
-  cases hn with
-  | lf =>
-    simp only [List.cons_append, List.nil_append] at h
+theorem White.tail {b : UInt8} {ws : List UInt8} (h : White (b :: ws)) : White ws := fun x hx => h x (by simp [hx])
+theorem White.nil : White [] := by intro b hb; cases hb
+theorem White.append {a b : List UInt8} (ha : White a) (hb : White b) : White (a ++ b) := by
+  intro x hx
+  rcases List.mem_append.mp hx with h | h
+  · exact ha x h
+  · exact hb x h
+theorem Blanks.white {w : List UInt8} (h : Blanks w) : White w := by
+  intro b hb
+  rcases h b hb with e | e
+  · exact Or.inl e
+  · exact Or.inr (Or.inl e)
+theorem Nl.white {nl : List UInt8} (h : Nl nl) : White nl := by
+  cases h <;> (intro b hb; simp at hb; rcases hb with rfl | rfl <;> simp) <;> (intro b hb; simp at hb; subst hb; simp)
+
+/-- white space up to the end of the input -/
+theorem cws_white (W : List UInt8) (hW : White W) :
+    ∀ (s : Scan) (fuel : Nat), At s W → W.length + 1 ≤ fuel →
+    ∃ s', Scan.consumeWhiteSpaces fuel s = .ok s' ∧ At s' [] ∧ s'.stash = [] := by
+  induction W with
+  | nil =>
+    intro s fuel h hf
+    obtain ⟨f, rfl⟩ : ∃ f, fuel = f + 1 := ⟨fuel - 1, by omega⟩
+    exact cws_eof h f
+  | cons b W ih =>
+    intro s fuel h hf
+    obtain ⟨f, rfl⟩ : ∃ f, fuel = f + 1 := ⟨fuel - 1, by omega⟩
+    have hws := isWhiteSpace_of h.cur (hW b (by simp))
     rw [Scan.consumeWhiteSpaces]
-    simp only [Scan.isWhiteSpace, Scan.isSpace, Scan.isNewline, h.cur, h.read]
-    rw [cws_none h.advance ⟨b, r, rfl, hb⟩ (fuel + 1)]
-    simp [advN]
-  | crlf =>
-    simp only [List.cons_append, List.nil_append] at h
+    simp only [hws, Bool.not_true, Bool.false_eq_true, if_false]
+    cases W with
+    | nil =>
+      have h' := h.advance
+      exact ⟨s.advance, by rw [h.read_last], h', h'.2.1⟩
+    | cons c W' =>
+      rw [h.read]
+      exact ih (White.tail hW) s.advance f h.advance (by simpa using hf)
+
+/-- white space followed by text that does not start with white space -/
+theorem cws_white_then (W : List UInt8) (hW : White W) (text : List UInt8) (hfo : FirstW text) :
+    ∀ (s : Scan) (fuel : Nat), At s (W ++ text) → W.length + 1 ≤ fuel →
+    Scan.consumeWhiteSpaces fuel s = .ok (advN W.length s) := by
+  obtain ⟨x, r, rfl, hx⟩ := hfo
+  induction W with
+  | nil =>
+    intro s fuel h hf
+    obtain ⟨f, rfl⟩ : ∃ f, fuel = f + 1 := ⟨fuel - 1, by omega⟩
+    simp only [List.nil_append] at h
+    rw [cws_none h ⟨x, r, rfl, hx⟩ f]; rfl
+  | cons b W ih =>
+    intro s fuel h hf
+    obtain ⟨f, rfl⟩ : ∃ f, fuel = f + 1 := ⟨fuel - 1, by omega⟩
+    simp only [List.cons_append] at h
+    have hws := isWhiteSpace_of h.cur (hW b (by simp))
+    obtain ⟨c, r', hc⟩ : ∃ c r', W ++ x :: r = c :: r' := by
+      cases hx' : W ++ x :: r with
+      | nil => simp at hx'
+      | cons c r' => exact ⟨c, r', rfl⟩
+    have hrd : s.read = (some c, s.advance) := by rw [hc] at h; exact h.read
     rw [Scan.consumeWhiteSpaces]
-    simp only [Scan.isWhiteSpace, Scan.isSpace, Scan.isNewline, h.cur, h.read]
-    rw [Scan.consumeWhiteSpaces]
-    simp only [Scan.isWhiteSpace, Scan.isSpace, Scan.isNewline, h.advance.cur, h.advance.read]
-    rw [cws_none h.advance.advance ⟨b, r, rfl, hb⟩ fuel]
-    simp [advN]
+    simp only [hws, Bool.not_true, Bool.false_eq_true, if_false, hrd]
+    rw [ih (White.tail hW) s.advance f h.advance (by simpa using hf)]
+    rfl
 
 /-! ### the end of a grid -/
 
@@ -60,30 +93,32 @@ theorem cws_nl_then {s : Scan} {nl text : List UInt8} (hn : Nl nl) (h : At s (nl
 inductive GridEnd : Bool → List UInt8 → List UInt8 → Prop
   | nested (rest : List UInt8) : GridEnd true (62 :: 62 :: rest) rest
   | top : GridEnd false [] []
-  | topNl (nl : List UInt8) (hn : Nl nl) : GridEnd false nl []
+  | topNl (w nl trail : List UInt8) (hw : Blanks w) (hn : Nl nl) (ht : White trail) : GridEnd false (w ++ (nl ++ trail)) []
+
+theorem GridEnd.white {tail final : List UInt8} (h : GridEnd false tail final) : White tail ∧ final = [] := by
+  cases h with
+  | top => exact ⟨White.nil, rfl⟩
+  | topNl w nl trail hw hn ht => exact ⟨White.append (Blanks.white hw) (White.append (Nl.white hn) ht), rfl⟩
 
 /-- `consume_end` after the line ending of the last row -/
 theorem consumeEnd_last {nested : Bool} {tail final : List UInt8} (hE : GridEnd nested tail final) (g : Nat) (p2 : PS)
-    (ht2 : p2.tok = .ch 10) (h2 : At p2.sc tail) (hs2 : p2.sc.stash = []) :
+    (ht2 : p2.tok = .ch 10) (h2 : At p2.sc tail) (hs2 : p2.sc.stash = []) (hfu : nested = false → tail.length ≤ g) :
     ∃ r3 : RowState, consumeEnd (g + 3) { p := p2, nestedStart := nested, nestedEnd := false } = .ok r3 ∧
       (r3.p.isEof || r3.nestedEnd) = true ∧ At r3.p.sc final ∧ r3.p.sc.stash = [] := by
   have hp2_10 : PS.isChar p2 10 = true := by unfold PS.isChar; rw [ht2]; rfl
-  cases hE with
-  | nested =>
-    have hfo : FirstOk (62 :: 62 :: final) := ⟨62, _, rfl, by decide, by decide, by decide, by decide⟩
-    refine ⟨{ p := { sc := p2.sc.advance.advance, tok := .ch 62 }, nestedStart := true, nestedEnd := true }, ?_,
-      by simp, h2.advance.advance, advN_stash_nil 2 _ hs2⟩
-    rw [consumeEnd]
-    simp [hp2_10, cws_none h2 hfo, PS.isEof, h2.eof, PS.read, lexRead_special h2 (by decide) (by decide) (g + 1),
-      isChar_ch, lexRead_special h2.advance (by decide) (by decide) (g + 1)]
-  | top =>
-    obtain ⟨s', e, h', hs'⟩ := cws_eof h2 (g + 2)
-    refine ⟨{ p := { p2 with sc := s' }, nestedStart := false, nestedEnd := false }, ?_, ?_, h', hs'⟩
-    · rw [consumeEnd]
-      simp [hp2_10, e, PS.isEof, h'.eof_nil]
-    · simp [PS.isEof, h'.eof_nil]
-  | topNl nl hn =>
-    obtain ⟨s', e, h', hs'⟩ := cws_nl_end hn h2 g
+  cases nested with
+  | true =>
+    cases hE with
+    | nested =>
+      have hfo : FirstOk (62 :: 62 :: final) := ⟨62, _, rfl, by decide, by decide, by decide, by decide⟩
+      refine ⟨{ p := { sc := p2.sc.advance.advance, tok := .ch 62 }, nestedStart := true, nestedEnd := true }, ?_,
+        by simp, h2.advance.advance, advN_stash_nil 2 _ hs2⟩
+      rw [consumeEnd]
+      simp [hp2_10, cws_none h2 hfo, PS.isEof, h2.eof, PS.read, lexRead_special h2 (by decide) (by decide) (g + 1),
+        isChar_ch, lexRead_special h2.advance (by decide) (by decide) (g + 1)]
+  | false =>
+    obtain ⟨hW, rfl⟩ := hE.white
+    obtain ⟨s', e, h', hs'⟩ := cws_white tail hW p2.sc (g + 3) h2 (by have := hfu rfl; omega)
     refine ⟨{ p := { p2 with sc := s' }, nestedStart := false, nestedEnd := false }, ?_, ?_, h', hs'⟩
     · rw [consumeEnd]
       simp [hp2_10, e, PS.isEof, h'.eof_nil]
@@ -98,16 +133,21 @@ structure RowOkW (r : Tags) (names : List (List Char)) (single : Bool) (line : L
   sorted : keysSorted r.keys = true
   sub : ∀ k ∈ r.keys, k ∈ names
 
+/-- a lone CR that is the last byte of the grid text: then the text after the grid does not start with LF
+(`tlf = false`) -/
+def CrOk (nl rest : List UInt8) (tlf : Bool) : Prop := nl = [13] → rest = [] → tlf = false
+
 /-- the spelled rows -/
-inductive RowsOkW (names : List (List Char)) (single : Bool) : Rows → List UInt8 → Prop
-  | nil : RowsOkW names single .nil []
-  | cons (r : Tags) (rs : Rows) (line nl rest : List UInt8) (hr : RowOkW r names single line) (hn : Nl nl)
-      (t : RowsOkW names single rs rest) : RowsOkW names single (.cons r rs) (line ++ nl ++ rest)
+inductive RowsOkW (names : List (List Char)) (single tlf : Bool) : Rows → List UInt8 → Prop
+  | nil : RowsOkW names single tlf .nil []
+  | cons (r : Tags) (rs : Rows) (line w nl rest : List UInt8) (hr : RowOkW r names single line) (hw : Blanks w)
+      (hn : Nl nl) (hcr : CrOk nl rest tlf) (t : RowsOkW names single tlf rs rest) :
+      RowsOkW names single tlf (.cons r rs) (line ++ w ++ nl ++ rest)
 
 /-- a row line starts with a byte that is not white space -/
 theorem firstW_row {r : Tags} {names : List (List Char)} {single : Bool} {line : List UInt8}
-    (h : RowOkW r names single line) (hsingle : names.length = 1 → single = true) (tl : List UInt8) {nl : List UInt8}
-    (hn : Nl nl) : FirstW (line ++ (nl ++ tl)) := by
+    (h : RowOkW r names single line) (hsingle : names.length = 1 → single = true) (x : List UInt8) :
+    FirstW (line ++ x) := by
   obtain ⟨cs, hC, hl⟩ := h.cells
   cases hl with
   | one n =>
@@ -116,7 +156,7 @@ theorem firstW_row {r : Tags} {names : List (List Char)} {single : Bool} {line :
     | none => exact absurd hget (h.pres hs n (by simp))
     | some v =>
       obtain ⟨b, rr, e, hb⟩ := ((hC n).1 v hget).first
-      exact ⟨b, rr ++ (nl ++ tl), by rw [e]; simp, hb⟩
+      exact ⟨b, rr ++ x, by rw [e]; simp, hb⟩
   | cons n n2 ns w restl hw hl' =>
     cases hget : r.get? n with
     | none =>
@@ -124,31 +164,49 @@ theorem firstW_row {r : Tags} {names : List (List Char)} {single : Bool} {line :
       exact ⟨44, _, by simp; rfl, by decide, by decide, by decide, by decide⟩
     | some v =>
       obtain ⟨b, rr, e, hb⟩ := ((hC n).1 v hget).first
-      exact ⟨b, rr ++ (44 :: (w ++ restl) ++ (nl ++ tl)), by rw [e]; simp, hb⟩
+      exact ⟨b, rr ++ (44 :: (w ++ restl) ++ x), by rw [e]; simp, hb⟩
+
+theorem RowsOkW.head_ne {names : List (List Char)} {single tlf : Bool} {rows : Rows} {body : List UInt8}
+    (h : RowsOkW names single tlf rows body) (hsingle : names.length = 1 → single = true) (hne : body ≠ []) (x : List UInt8) :
+    (body ++ x).head? ≠ some 10 := by
+  cases h with
+  | nil => exact absurd rfl hne
+  | cons r rs line w nl rest hr hw hn hcr t =>
+    obtain ⟨b, rr, e, hb⟩ := firstW_row hr hsingle (w ++ nl ++ rest ++ x)
+    have : line ++ w ++ nl ++ rest ++ x = b :: rr := by simpa using e
+    rw [this]
+    simp only [List.head?_cons, ne_eq, Option.some.injEq]
+    exact hb.2.2.2
 
 /-- the row iterator on one or more rows -/
-theorem rowsLoopW (names : List (List Char)) (single nested : Bool) (tail final : List UInt8)
-    (hE : GridEnd nested tail final) (hne : names ≠ []) (hsingle : names.length = 1 → single = true)
-    (hnd : names.Nodup) (depth : Nat) (rows : Rows) (body : List UInt8) (hok : RowsOkW names single rows body) :
+theorem rowsLoopW (names : List (List Char)) (single nested tlf : Bool) (tail final : List UInt8)
+    (hE : GridEnd nested tail final) (htl : tlf = false → tail.head? ≠ some 10) (hne : names ≠ [])
+    (hsingle : names.length = 1 → single = true)
+    (hnd : names.Nodup) (depth : Nat) (rows : Rows) (body : List UInt8) (hok : RowsOkW names single tlf rows body) :
     ∀ (r : Tags) (rs : Rows), rows = .cons r rs → depth + nestR rows ≤ 64 →
     ∀ (f1 f2 : Nat) (sc : Scan) (acc : List Tags), At sc (body ++ tail) → sc.stash = [] →
-    4 * body.length + 20 ≤ f1 → 4 * body.length + 20 ≤ f2 →
+    4 * body.length + 20 ≤ f1 → 4 * body.length + 20 ≤ f2 → (nested = false → 4 * body.length + tail.length + 20 ≤ f2) →
     ∃ p r', lexRead f1 sc = .ok p ∧ p.sc.eof = false ∧ PS.isChar p 10 = false ∧ PS.isChar p 62 = false ∧
       rowsLoop f2 depth { p := p, nestedStart := nested, nestedEnd := false } names acc
         = .ok (acc ++ (lexImgR rows).toList, r') ∧
       At r'.p.sc final ∧ r'.p.sc.stash = [] := by
   induction hok with
   | nil => intro r rs e; cases e
-  | cons r0 rs0 line nl rest hrow hn hrest ih =>
-    intro r rs e hdep f1 f2 sc acc hat hs hf1 hf2
+  | cons r0 rs0 line w nl rest hrow hw hn hcr hrest ih =>
+    intro r rs e hdep f1 f2 sc acc hat hs hf1 hf2 hfu
     cases e
     simp only [nestR] at hdep
-    simp only [List.append_assoc, List.length_append] at hat hf1 hf2
+    simp only [List.append_assoc, List.length_append] at hat hf1 hf2 hfu
     have hnl : 1 ≤ nl.length := by cases hn <;> simp
     obtain ⟨g, rfl⟩ : ∃ g, f2 = g + 5 := ⟨f2 - 5, by omega⟩
     obtain ⟨cs, hC, hl⟩ := hrow.cells
+    have hnolf : NoLF nl (rest ++ tail) := by
+      intro e
+      by_cases hr : rest = []
+      · subst hr; simpa using htl (hcr e rfl)
+      · exact hrest.head_ne hsingle hr tail
     obtain ⟨p, p2, e1, e2, ht2, h2, hs2, hfirst⟩ := rowLoopW r0 cs names single hC hrow.pres names line hl 0 rfl depth f1
-      (g + 3) sc [] (rest ++ tail) nl [] hn Blanks.nil (by omega) (by simpa using hat) (by simp [hs]) (fun _ => hs)
+      (g + 3) sc [] (rest ++ tail) nl w [] hn hw hnolf Blanks.nil (by omega) (by simpa using hat) (by simp [hs]) (fun _ => hs)
       (by simp; omega) (by simp; omega)
     have hsz : 2 ≤ names.length ∨ single = true := by
       cases names with
@@ -170,39 +228,61 @@ theorem rowsLoopW (names : List (List Char)) (single nested : Bool) (tail final 
       simp only [heof, Bool.or_false, Bool.false_eq_true, if_false, e2, hdict]
       rfl
     cases hrest with
-    | cons r2 rs2 line2 nl2 rest2 hrow2 hn2 hrest2 =>
-      have hfo : FirstW (line2 ++ nl2 ++ rest2 ++ tail) := by
-        have := firstW_row hrow2 hsingle (rest2 ++ tail) hn2
+    | cons r2 rs2 line2 w2 nl2 rest2 hrow2 hw2 hn2 hcr2 hrest2 =>
+      have hfo : FirstW (line2 ++ w2 ++ nl2 ++ rest2 ++ tail) := by
+        have := firstW_row hrow2 hsingle (w2 ++ nl2 ++ rest2 ++ tail)
         simpa using this
       obtain ⟨q, r', eq, hqe, hq10, hq62, eloop, hfin, hsfin⟩ := ih r2 rs2 rfl (by omega) (g + 2) (g + 4) p2.sc
-        (acc ++ [lexImgT r0]) h2 hs2 (by omega) (by omega)
+        (acc ++ [lexImgT r0]) h2 hs2 (by omega) (by omega) (fun h => by have := hfu h; omega)
       refine ⟨p, r', e1, heof, h10, h62, ?_, hfin, hsfin⟩
       rw [rowsLoop, hnext, consumeEnd_next (g + 2) p2 q nested _ ht2 h2 hfo.ok eq hq62]
       simp only [eloop, lexImgR_toList_cons]
       simp
     | nil =>
       simp only [List.nil_append] at h2
-      obtain ⟨r3, e3, hend, h3, hs3⟩ := consumeEnd_last hE g p2 ht2 h2 hs2
+      obtain ⟨r3, e3, hend, h3, hs3⟩ := consumeEnd_last hE g p2 ht2 h2 hs2 (fun h => by have := hfu h; omega)
       refine ⟨p, r3, e1, heof, h10, h62, ?_, h3, hs3⟩
       rw [rowsLoop, hnext, e3]
       simp only []
       rw [rowsLoop, rowNext]
       simp [hend, lexImgR, Rows.toList]
 
+/-- a line ending (after blanks) followed by white space only: one `.ch 10` token, white space is left -/
+theorem lexRead_nl_white (w nl trail : List UInt8) (hw : Blanks w) (hn : Nl nl) (ht : White trail) (s : Scan)
+    (h : At s (w ++ (nl ++ trail))) (hs : s.stash = []) (fuel : Nat) (hf : w.length + 2 ≤ fuel) :
+    ∃ s' t', lexRead fuel s = .ok { sc := s', tok := .ch 10 } ∧ At s' t' ∧ White t' ∧ t'.length ≤ trail.length ∧
+      s'.stash = [] := by
+  by_cases hc : nl = [13] ∧ trail.head? = some 10
+  · obtain ⟨rfl, h10⟩ := hc
+    cases trail with
+    | nil => simp at h10
+    | cons x t =>
+      simp only [List.head?_cons, Option.some.injEq] at h10
+      subst h10
+      obtain ⟨s', e, h', hs'⟩ := lexRead_nlW w hw [13, 10] Nl.crlf s t (by simpa using h) (fun e => by cases e)
+        (by simp [hs]) (fun _ => hs) fuel hf
+      exact ⟨s', t, e, h', White.tail ht, by simp, hs'⟩
+  · have hno : NoLF nl trail := by
+      intro e; intro h10; exact hc ⟨e, h10⟩
+    obtain ⟨s', e, h', hs'⟩ := lexRead_nlW w hw nl hn s trail h hno (by simp [hs]) (fun _ => hs) fuel hf
+    exact ⟨s', trail, e, h', ht, Nat.le_refl _, hs'⟩
+
 /-- all rows (possibly none) and the end of the grid -/
-theorem rows_allW (names : List (List Char)) (single nested : Bool) (tail final : List UInt8)
-    (hE : GridEnd nested tail final) (hne : names ≠ []) (hsingle : names.length = 1 → single = true)
-    (hnd : names.Nodup) (depth : Nat) (rows : Rows) (body : List UInt8) (hok : RowsOkW names single rows body)
+theorem rows_allW (names : List (List Char)) (single nested tlf : Bool) (tail final : List UInt8)
+    (hE : GridEnd nested tail final) (htl : tlf = false → tail.head? ≠ some 10) (hne : names ≠ [])
+    (hsingle : names.length = 1 → single = true)
+    (hnd : names.Nodup) (depth : Nat) (rows : Rows) (body : List UInt8) (hok : RowsOkW names single tlf rows body)
     (hdep : depth + nestR rows ≤ 64) (g : Nat) (sc6 : Scan) (hat : At sc6 (body ++ tail)) (hs : sc6.stash = [])
-    (hf : 4 * body.length + 20 ≤ g) :
+    (hf : 4 * body.length + 20 ≤ g) (hfu : nested = false → 4 * body.length + tail.length + 20 ≤ g) :
     ∃ p6 r', lexRead g sc6 = .ok p6 ∧
       rowsLoop (g + 1) depth { p := p6, nestedStart := nested, nestedEnd := false } names []
         = .ok ((lexImgR rows).toList, r') ∧
       At r'.p.sc final ∧ r'.p.sc.stash = [] := by
   cases hok with
-  | cons r rs line nl rest hr hn t =>
-    obtain ⟨p, r', e1, _, _, _, e2, h', hs'⟩ := rowsLoopW names single nested tail final hE hne hsingle hnd depth _ _
-      (RowsOkW.cons r rs line nl rest hr hn t) r rs rfl hdep g (g + 1) sc6 [] hat hs hf (by omega)
+  | cons r rs line w nl rest hr hw hn hcr t =>
+    obtain ⟨p, r', e1, _, _, _, e2, h', hs'⟩ := rowsLoopW names single nested tlf tail final hE htl hne hsingle hnd depth _ _
+      (RowsOkW.cons r rs line w nl rest hr hw hn hcr t) r rs rfl hdep g (g + 1) sc6 [] hat hs hf (by omega)
+      (fun h => by have := hfu h; omega)
     exact ⟨p, r', e1, by simpa using e2, h', hs'⟩
   | nil =>
     simp only [List.nil_append] at hat
@@ -213,12 +293,25 @@ theorem rows_allW (names : List (List Char)) (single nested : Bool) (tail final 
         lexRead_eof hat _, ?_, hat, hs⟩
       rw [rowsLoop, rowNext]
       simp [PS.isEof, hat.eof_nil, lexImgR, Rows.toList]
-    | topNl _ hn =>
-      obtain ⟨s', e, h', hs'⟩ := lexRead_nl tail hn sc6 [] (by simpa using hat) (by simp [hs]) (g' + 2)
-      refine ⟨{ sc := s', tok := .ch 10 }, { p := { sc := s', tok := .ch 10 }, nestedStart := false, nestedEnd := false },
-        e, ?_, h', hs'⟩
-      rw [rowsLoop, rowNext]
-      simp [PS.isEof, h'.eof_nil, lexImgR, Rows.toList]
+    | topNl w nl trail hw hn ht =>
+      have hfu' := hfu rfl
+      simp only [List.length_append, List.length_nil] at hfu'
+      obtain ⟨s', t', e, h', hwt, hlt, hs'⟩ := lexRead_nl_white w nl trail hw hn ht sc6 hat hs (g' + 3) (by omega)
+      by_cases he : s'.eof = true
+      · refine ⟨{ sc := s', tok := .ch 10 }, { p := { sc := s', tok := .ch 10 }, nestedStart := false, nestedEnd := false },
+          e, ?_, ?_, hs'⟩
+        · rw [rowsLoop, rowNext]
+          simp [PS.isEof, he, lexImgR, Rows.toList]
+        · cases t' with
+          | nil => exact h'
+          | cons b r => rw [h'.eof] at he; cases he
+      · obtain ⟨s2, e2, h2, hs2⟩ := cws_white t' hwt s' (g' + 2) h' (by omega)
+        refine ⟨{ sc := s', tok := .ch 10 }, { p := { sc := s2, tok := .ch 10 }, nestedStart := false, nestedEnd := false },
+          e, ?_, h2, hs2⟩
+        rw [rowsLoop, rowNext]
+        simp only [PS.isEof, he, Bool.or_false, Bool.false_eq_true, if_false]
+        rw [consumeEnd]
+        simp [isChar_ch, e2, PS.isEof, h2.eof_nil, lexImgR, Rows.toList]
     | nested =>
       refine ⟨{ sc := sc6.advance, tok := .ch 62 },
         { p := { sc := sc6.advance.advance, tok := .ch 62 }, nestedStart := true, nestedEnd := true },
